@@ -84,6 +84,76 @@ void h_B_Parameter_write_int(void)
   VF_CANARY();
 }
 
+/* ---------------------------------------------------------------- FLOAT parameter with VF_ND dimensions: the same record, elements
+ * are the four bytes of each float (C12: every bit pattern; C14: every byte comes from the object). */
+void h_B_Parameter_write_float(void)
+{
+  struct Parameter *self = (struct Parameter *)vf_alloc(sizeof(*self));
+  size_t L = nondet_size_t(), D = nondet_size_t(), nd = VF_ND; /* constant: the recursion depth is decided during symbolic execution */
+  __CPROVER_assume(L >= 1 && L <= 2 && D <= 2);
+  self->_name.size = L; self->_name.data = (char *)vf_alloc(3); self->_name.data[L] = 0;
+  self->_description.size = D; self->_description.data = (char *)vf_alloc(3); self->_description.data[D] = 0;
+  /* no "DATA_START" special case: names of at most 2 characters */
+  self->_data_type = 4;
+  self->_dimension.size = nd;
+  self->_dimension.data = (size_t *)vf_alloc(2 * sizeof(size_t));
+  __CPROVER_assume(self->_dimension.data[0] <= 2 && (nd < 2 || self->_dimension.data[1] <= 2));
+  size_t d0 = self->_dimension.data[0], d1 = nd == 2 ? self->_dimension.data[1] : 1;
+  size_t n = d0 * d1;
+  self->_param_data_float.size = n;        /* Parameter::set keeps values and shape consistent (units Parameter_set_float, isDimensionConsistent) */
+  self->_param_data_float.data = (float *)vf_alloc(4 * sizeof(float));
+  self->_param_data_int.size = 0; self->_param_data_int.data = 0;
+  self->_param_data_string.size = 0; self->_param_data_string.data = 0;
+  vf_stream *f = vf_mk_ostream(CAPW);
+  size_t p0 = nondet_size_t();
+  __CPROVER_assume(p0 <= 1);
+  f->pos = (long)p0; f->len = p0;
+  unsigned char before = f->buf[vf_gb < CAPW ? vf_gb : 0];
+  int gid = nondet_int();
+  __CPROVER_assume(gid >= 1 && gid <= 127);
+  vf_spos *dsp = (vf_spos *)vf_alloc(sizeof(vf_spos));
+  vf_spos dsp0 = *dsp;
+  vf_fault_enabled = 0; vf_exc = 0;
+  Parameter__write(self, f, gid, dsp);
+  _Bool scalar = (nd == 1 && d0 == 1);
+  size_t ndw = scalar ? 0 : nd;             /* dimension bytes written */
+  size_t data_at = p0 + 2 + L + 2 + 1 + 1 + ndw;
+  size_t desc_at = data_at + 4 * n;
+  size_t end = desc_at + 1 + D;
+  /*@ C03 C14 : Parameter_write.record-length */
+  __CPROVER_assert(vf_exc == 0 && !f->fail && (size_t)f->pos == end && f->len == end, "record = 2 + name + 2 + 1 + 1 + dims + data + 1 + description bytes");
+  /*@ C03 C17 : Parameter_write.name-length-byte-with-lock-sign */
+  __CPROVER_assert(BB(p0) == (unsigned char)(self->_isLocked ? -(int)L : (int)L), "name length, negative when locked");
+  /*@ C03 : Parameter_write.group-id-byte */
+  __CPROVER_assert(BB(p0 + 1) == (unsigned char)gid, "owning group id as passed by Group::write");
+  /*@ C03 C01 : Parameter_write.name-upper-case */
+  __CPROVER_assert(vf_gc >= L || BB(p0 + 2 + vf_gc) == (unsigned char)VF_UPPER(self->_name.data[vf_gc]), "name characters, upper-cased");
+  /*@ C03 C02 : Parameter_write.offset-to-the-next-record */
+  __CPROVER_assert((BB(p0 + 2 + L) | (BB(p0 + 3 + L) << 8)) == end - (p0 + 2 + L), "offset word: distance from the word to the end of the record");
+  /*@ C03 C12 : Parameter_write.type-byte */
+  __CPROVER_assert(BB(p0 + 4 + L) == 4, "element width 4 = 32-bit floats");
+  /*@ C03 C01 : Parameter_write.dimension-count-byte */
+  __CPROVER_assert(BB(p0 + 5 + L) == ndw, "0 for a scalar, else the number of dimensions");
+  /*@ C03 C01 : Parameter_write.dimension-bytes */
+  __CPROVER_assert(scalar || vf_gd >= nd || BB(p0 + 6 + L + vf_gd) == self->_dimension.data[vf_gd], "one byte per dimension");
+  {
+    const unsigned char *vf_src = (const unsigned char *)&self->_param_data_float.data[vf_gv < n ? vf_gv : 0];
+    /*@ C03 C01 C12 C14 : Parameter_write.float-elements-in-storage-order */
+    __CPROVER_assert(vf_gv >= n || (BB(data_at + 4 * vf_gv) == vf_src[0] && BB(data_at + 4 * vf_gv + 1) == vf_src[1] && BB(data_at + 4 * vf_gv + 2) == vf_src[2] &&
+                                    BB(data_at + 4 * vf_gv + 3) == vf_src[3]), "element k as its four object-representation bytes at data + 4k (every bit pattern, NaN included)");
+  }
+  /*@ C03 C04 : Parameter_write.description-length-byte */
+  __CPROVER_assert(BB(desc_at) == D, "description length");
+  /*@ C03 C04 C14 : Parameter_write.description-bytes */
+  __CPROVER_assert(vf_gc >= D || BB(desc_at + 1 + vf_gc) == (unsigned char)self->_description.data[vf_gc], "description characters");
+  /*@ C14 : Parameter_write.earlier-bytes-untouched */
+  __CPROVER_assert(!(vf_gb < p0) || f->buf[vf_gb] == before, "nothing before the record is written");
+  /*@ C03 : Parameter_write.data-start-slot-only-for-DATA_START */
+  __CPROVER_assert(*dsp == dsp0, "only POINT:DATA_START records its position");
+  VF_CANARY();
+}
+
+
 /* ---------------------------------------------------------------- one-dimensional CHAR parameter (the shape the reader
  * produces for a padded text: declared width kept in dimension[0], text trimmed): the cell must have the declared width,
  * text then spaces (C04: load -> save -> load; C14: every byte defined, nothing read past the string).
